@@ -1,6 +1,7 @@
 import PdtVerif.Spec.Recoverable
 /-!
-# Lemmas for C16: association-list files, frame reasoning for `exec`, the history file
+# Lemmas for C16: association-list files, frame reasoning for `exec`, the history file,
+one update call by call, sessions and crash schedules
 -/
 namespace PdtVerif.Checkpoint
 
@@ -47,8 +48,8 @@ def touches : FsOp → Path → Prop
   | .remove p, q => q = p
   | _, _ => False
 
-def isFlush : FsOp → Prop
-  | .flush _ => True
+def isHwrite : FsOp → Prop
+  | .hwrite _ => True
   | _ => False
 
 theorem exec1_get (d : Disk) (op : FsOp) (q : Path) (h : ¬ touches op q) :
@@ -64,7 +65,7 @@ theorem exec1_get (d : Disk) (op : FsOp) (q : Path) (h : ¬ touches op q) :
     · simp [Files.get_set, Files.get_del, h.1, h.2]
     · rfl
   | openAppend => rfl
-  | flush ls => rfl
+  | hwrite l => rfl
   | remove p => simp only [touches] at h; simp [exec1, Files.get_del, h]
 
 theorem parseCsv_getD (c : Option (List Line)) : parseCsv (some (c.getD [])) = parseCsv c := by
@@ -77,13 +78,14 @@ theorem csvHealthy_getD (c : Option (List Line)) : csvHealthy (some (c.getD []))
   | none => rfl
   | some l => rfl
 
-theorem exec1_csv (d : Disk) (op : FsOp) (h : ¬ isFlush op) :
-    parseCsv (exec1 d op).csv = parseCsv d.csv ∧ csvHealthy (exec1 d op).csv = csvHealthy d.csv := by
+theorem exec1_csv (d : Disk) (op : FsOp) (h : ¬ isHwrite op) :
+    parseCsv (exec1 d op).csv = parseCsv d.csv ∧ csvHealthy (exec1 d op).csv = csvHealthy d.csv ∧
+      (exec1 d op).csv.getD [] = d.csv.getD [] := by
   cases op with
-  | flush ls => exact absurd trivial h
-  | openAppend => exact ⟨parseCsv_getD _, csvHealthy_getD _⟩
-  | replace t dst => simp only [exec1]; split <;> exact ⟨rfl, rfl⟩
-  | _ => exact ⟨rfl, rfl⟩
+  | hwrite l => exact absurd trivial h
+  | openAppend => exact ⟨parseCsv_getD _, csvHealthy_getD _, rfl⟩
+  | replace t dst => simp only [exec1]; split <;> exact ⟨rfl, rfl, rfl⟩
+  | _ => exact ⟨rfl, rfl, rfl⟩
 
 theorem exec_append (d : Disk) (a b : List FsOp) : exec d (a ++ b) = exec (exec d a) b := by
   simp [exec, List.foldl_append]
@@ -92,31 +94,56 @@ theorem exec_cons (d : Disk) (a : FsOp) (b : List FsOp) : exec d (a :: b) = exec
 
 theorem exec_nil (d : Disk) : exec d [] = d := rfl
 
-/-- Frame: operations that are not `flush` and touch no path of `S` leave the parsed history, its
-health and every file of `S` as they were. -/
-theorem exec_frame (S : Path → Prop) (ops : List FsOp) (d : Disk)
-    (h : ∀ op ∈ ops, ¬ isFlush op ∧ ∀ q, S q → ¬ touches op q) :
-    parseCsv (exec d ops).csv = parseCsv d.csv ∧ csvHealthy (exec d ops).csv = csvHealthy d.csv ∧
-      ∀ q, S q → (exec d ops).files.get q = d.files.get q := by
+/-- Frame for the files alone: operations that touch no path of `S` leave every file of `S`. -/
+theorem exec_frame_files (S : Path → Prop) (ops : List FsOp) (d : Disk)
+    (h : ∀ op ∈ ops, ∀ q, S q → ¬ touches op q) :
+    ∀ q, S q → (exec d ops).files.get q = d.files.get q := by
   induction ops generalizing d with
-  | nil => exact ⟨rfl, rfl, fun _ _ => rfl⟩
+  | nil => exact fun _ _ => rfl
   | cons op ops ih =>
-    have h1 := h op (List.mem_cons_self ..)
-    have h2 : ∀ op' ∈ ops, ¬ isFlush op' ∧ ∀ q, S q → ¬ touches op' q :=
-      fun op' hm => h op' (List.mem_cons_of_mem _ hm)
-    obtain ⟨a, b, c⟩ := ih (exec1 d op) h2
-    obtain ⟨a1, b1⟩ := exec1_csv d op h1.1
-    refine ⟨by rw [exec_cons, a, a1], by rw [exec_cons, b, b1], fun q hq => ?_⟩
-    rw [exec_cons, c q hq, exec1_get d op q (h1.2 q hq)]
+    intro q hq
+    rw [exec_cons, ih (exec1 d op) (fun op' hm => h op' (List.mem_cons_of_mem _ hm)) q hq,
+      exec1_get d op q (h op (List.mem_cons_self ..) q hq)]
+
+/-- Frame: operations that write no history line and touch no path of `S` leave the parsed
+history, its health and every file of `S` as they were. -/
+theorem exec_frame (S : Path → Prop) (ops : List FsOp) (d : Disk)
+    (h : ∀ op ∈ ops, ¬ isHwrite op ∧ ∀ q, S q → ¬ touches op q) :
+    parseCsv (exec d ops).csv = parseCsv d.csv ∧ csvHealthy (exec d ops).csv = csvHealthy d.csv ∧
+      (exec d ops).csv.getD [] = d.csv.getD [] ∧
+      ∀ q, S q → (exec d ops).files.get q = d.files.get q := by
+  refine ⟨?_, ?_, ?_, exec_frame_files S ops d (fun op hm => (h op hm).2)⟩
+  all_goals
+    induction ops generalizing d with
+    | nil => rfl
+    | cons op ops ih =>
+      have h1 := h op (List.mem_cons_self ..)
+      have h2 : ∀ op' ∈ ops, ¬ isHwrite op' ∧ ∀ q, S q → ¬ touches op' q :=
+        fun op' hm => h op' (List.mem_cons_of_mem _ hm)
+      obtain ⟨a1, b1, c1⟩ := exec1_csv d op h1.1
+      rw [exec_cons, ih (exec1 d op) h2]
+      first | exact a1 | exact b1 | exact c1
 
 theorem recorded_congr {d d' : Disk} (h : parseCsv d'.csv = parseCsv d.csv) : recorded d' = recorded d := by
   simp [recorded, h]
 
+theorem mem_epochPaths (P : Params) (e : Nat) (q : Path) :
+    q ∈ epochPaths P e ↔ e ≠ 0 ∧ (q = P.mpath e ∨ q = P.opath e) := by
+  unfold epochPaths
+  by_cases h : e = 0
+  · simp [h]
+  · simp [h]
+
+/-- Loading epoch `e` looks at the two files of `e` only (at nothing when `e = 0`). -/
 theorem loadState_congr (P : Params) {d d' : Disk} (e : Nat)
-    (hm : d'.files.get (P.mpath e) = d.files.get (P.mpath e))
-    (ho : d'.files.get (P.opath e) = d.files.get (P.opath e)) :
+    (h : ∀ q ∈ epochPaths P e, d'.files.get q = d.files.get q) :
     loadState P d' e = loadState P d e := by
-  simp [loadState, hm, ho]
+  unfold loadState
+  by_cases he : e = 0
+  · simp [he]
+  · have hm := h (P.mpath e) ((mem_epochPaths P e _).2 ⟨he, Or.inl rfl⟩)
+    have ho := h (P.opath e) ((mem_epochPaths P e _).2 ⟨he, Or.inr rfl⟩)
+    simp [he, hm, ho]
 
 /-! ## `Rec` with the number of recorded epochs named -/
 
@@ -129,18 +156,17 @@ theorem RecAt.unique {P : Params} {vals : List (Option Int)} {tr : Train} {d : D
 
 /-- The files `Rec` looks at when `k` epochs are recorded and `b` is the best of them. -/
 def Prot (P : Params) (k b : Nat) (q : Path) : Prop :=
-  q = P.mpath k ∨ q = P.opath k ∨ q = P.mpath b ∨ q = P.opath b
+  q ∈ epochPaths P k ++ epochPaths P b
 
 theorem RecAt_frame {P : Params} {vals : List (Option Int)} {tr : Train} {d : Disk} {k : Nat}
     (h : RecAt P vals tr d k) (ops : List FsOp)
-    (hs : ∀ op ∈ ops, ¬ isFlush op ∧ ∀ q, Prot P k (bestOf (vals.take k)) q → ¬ touches op q) :
+    (hs : ∀ op ∈ ops, ¬ isHwrite op ∧ ∀ q, Prot P k (bestOf (vals.take k)) q → ¬ touches op q) :
     RecAt P vals tr (exec d ops) k := by
-  obtain ⟨a, b, c⟩ := exec_frame (Prot P k (bestOf (vals.take k))) ops d hs
+  obtain ⟨a, b, _, c⟩ := exec_frame (Prot P k (bestOf (vals.take k))) ops d hs
   obtain ⟨h1, h2, h3, h4, h5⟩ := h
   refine ⟨by rw [recorded_congr a]; exact h1, by rw [b]; exact h2, h3, ?_, ?_⟩
-  · rw [loadState_congr P k (c _ (Or.inl rfl)) (c _ (Or.inr (Or.inl rfl)))]; exact h4
-  · rw [loadState_congr P _ (c _ (Or.inr (Or.inr (Or.inl rfl)))) (c _ (Or.inr (Or.inr (Or.inr rfl))))]
-    exact h5
+  · rw [loadState_congr P k (fun q hq => c q (List.mem_append_left _ hq))]; exact h4
+  · rw [loadState_congr P _ (fun q hq => c q (List.mem_append_right _ hq))]; exact h5
 
 /-! ## `get_best_epoch` -/
 
@@ -208,9 +234,20 @@ theorem rowsOf_snoc (rest : List Line) (e : Nat) :
   | cons l rest ih =>
     cases l with
     | header => rfl
+    | torn => rfl
     | row x =>
       simp only [List.cons_append, rowsOf, ih]
       cases rowsOf rest <;> simp
+
+/-- A torn data row at the end makes the constructor raise, whatever precedes it. -/
+theorem rowsOf_snoc_torn (rest : List Line) : rowsOf (rest ++ [.torn]) = none := by
+  induction rest with
+  | nil => rfl
+  | cons l rest ih =>
+    cases l with
+    | header => rfl
+    | torn => rfl
+    | row x => simp only [List.cons_append, rowsOf, ih]; rfl
 
 /-! ## what `save` and `hist` do -/
 
@@ -259,12 +296,29 @@ theorem exec_saveOps_csv (P : Params) (d0 d : Disk) (e : Nat) (s : Nat × Nat) :
     (exec d (saveOps P d0 e s)).csv = d.csv := by
   rw [exec_saveOps]
 
-def histLines (Q : Quirks) (d0 : Disk) (e : Nat) : List Line :=
-  if writeHeader Q d0 then [.header, .row e] else [.row e]
-
 theorem exec_histOps (Q : Quirks) (d0 d : Disk) (e : Nat) :
     exec d (histOps Q d0 e) = { d with csv := some (d.csv.getD [] ++ histLines Q d0 e) } := by
-  simp [histOps, exec, exec1, histLines]
+  unfold histOps histLines
+  split <;> simp [exec, exec1]
+
+theorem histOps_files (Q : Quirks) (d0 d : Disk) (e : Nat) (i : Nat) :
+    (exec d ((histOps Q d0 e).take i)).files = d.files := by
+  have : ∀ (ops : List FsOp) (d : Disk), (∀ op ∈ ops, op = .openAppend ∨ ∃ l, op = .hwrite l) →
+      (exec d ops).files = d.files := by
+    intro ops
+    induction ops with
+    | nil => intro d _; rfl
+    | cons op ops ih =>
+      intro d h
+      rw [exec_cons, ih _ (fun op' hm => h op' (List.mem_cons_of_mem _ hm))]
+      rcases h op (List.mem_cons_self ..) with rfl | ⟨l, rfl⟩ <;> rfl
+  apply this
+  intro op hop
+  have hop := List.mem_of_mem_take hop
+  simp only [histOps, List.mem_cons, List.mem_map] at hop
+  rcases hop with rfl | ⟨l, _, rfl⟩
+  · exact Or.inl rfl
+  · exact Or.inr ⟨l, rfl⟩
 
 theorem recorded_range {f : Files} {c : Option (List Line)} {k : Nat} (h : recorded ⟨f, c⟩ = some k) :
     parseCsv c = some (List.range' 1 k) := by
@@ -313,86 +367,161 @@ theorem recorded_after_hist {f f' : Files} {c : Option (List Line)} {k : Nat}
     simp only [Bool.false_eq_true, if_false]
     rw [rowsOf_snoc, hp, hrange]; rfl
   | some (.row _ :: _), _, hh => simp [csvHealthy] at hh
+  | some (.torn :: _), _, hh => simp [csvHealthy] at hh
 
-/-! ## the plan of an update when file names are injective in the epoch -/
+/-- Whether the header line is written depends on the history file being absent or empty. -/
+theorem writeHeader_iff (d : Disk) : writeHeader Quirks.fixed d = true ↔ d.csv.getD [] = [] := by
+  unfold writeHeader
+  cases hc : d.csv with
+  | none => simp
+  | some l => cases l <;> simp [Quirks.fixed]
 
-theorem plan_inj {P : Params} (hi : Inj P) {vals : List (Option Int)} {k : Nat} {d : Disk}
-    {s : Nat × Nat} {main : List FsOp} {cl : List Path}
-    (h : planUpdate Quirks.fixed P vals k d s = .ok (main, cl)) :
-    main = saveOps P d (k + 1) s ++ histOps Quirks.fixed d (k + 1) ∧
-    ∀ p ∈ cl, P.keepLB = true ∧ bestOf (vals.take (k + 1)) ≠ k ∧ present d p = true ∧
-      (p = P.mpath k ∨ p = P.opath k ∨
+/-- The header line alone (interrupt between the two `writerow` calls of the first update). -/
+theorem RecAt_hwrite_header {P : Params} {vals : List (Option Int)} {tr : Train} {d : Disk} {k : Nat}
+    (h : RecAt P vals tr d k) (hc : d.csv.getD [] = []) :
+    RecAt P vals tr (exec1 d (.hwrite .header)) k := by
+  obtain ⟨h1, h2, h3, h4, h5⟩ := h
+  have hk : k = 0 := by
+    have hp := recorded_range (f := d.files) (c := d.csv) h1
+    cases hcsv : d.csv with
+    | none =>
+      rw [hcsv] at hp
+      cases k with
+      | zero => rfl
+      | succ n => simp [parseCsv, List.range'] at hp
+    | some l =>
+      rw [hcsv] at hc hp
+      simp only [Option.getD_some] at hc
+      subst hc
+      cases k with
+      | zero => rfl
+      | succ n => simp [parseCsv, List.range'] at hp
+  subst hk
+  have hd : exec1 d (.hwrite .header) = { d with csv := some [Line.header] } := by
+    simp [exec1, hc]
+  rw [hd]
+  exact ⟨rfl, rfl, h3, h4, h5⟩
+
+/-! ## the plan of an update -/
+
+/-- In the repaired tree `save_info_first` does not look at the disk. -/
+theorem infoFirst_fixed (P : Params) (vals : List (Option Int)) (k : Nat) (d d' : Disk) :
+    infoFirst Quirks.fixed P vals k d = infoFirst Quirks.fixed P vals k d' := by
+  unfold infoFirst
+  simp [Quirks.fixed]
+
+theorem plan_safe {P : Params} {vals : List (Option Int)} {k : Nat} (hs : SafeAt P vals k) (d : Disk)
+    (s : Nat × Nat) :
+    planUpdate Quirks.fixed P vals k d s =
+      .ok (saveOps P d (k + 1) s ++ histOps Quirks.fixed d (k + 1), cleanSet P vals k d) := by
+  have h2 : infoFirst Quirks.fixed P vals k d = false := by
+    rw [infoFirst_fixed P vals k d Disk.blank]; exact hs.2
+  simp [planUpdate, mainOps, hs.1, h2]
+
+/-- What is in the clean-up set. -/
+theorem mem_cleanSet_iff (P : Params) (vals : List (Option Int)) (k : Nat) (d : Disk) (q : Path) :
+    q ∈ cleanSet P vals k d ↔ (P.keepLB = true ∧ bestOf (vals.take (k + 1)) ≠ k ∧ present d q = true ∧
+      q ≠ P.mpath (k + 1) ∧ q ≠ P.opath (k + 1) ∧
+      (q = P.mpath k ∨ q = P.opath k ∨
         (bestOf (vals.take k) ≠ bestOf (vals.take (k + 1)) ∧
-          (p = P.mpath (bestOf (vals.take k)) ∨ p = P.opath (bestOf (vals.take k))))) := by
+          (q = P.mpath (bestOf (vals.take k)) ∨ q = P.opath (bestOf (vals.take k)))))) := by
+  unfold cleanSet
+  simp only
+  split
+  · rename_i hc
+    rw [List.mem_filter, List.mem_eraseDups, List.mem_filter, List.mem_append]
+    constructor
+    · rintro ⟨⟨hm, hne⟩, hp⟩
+      simp only [ne_eq, decide_eq_true_eq] at hne
+      refine ⟨hc.1, hc.2, hp, hne.1, hne.2, ?_⟩
+      rcases hm with hm | hm
+      · simp at hm
+        rcases hm with hm | hm
+        · exact Or.inl hm
+        · exact Or.inr (Or.inl hm)
+      · split at hm
+        · rename_i hbb
+          simp at hm
+          exact Or.inr (Or.inr ⟨hbb, hm⟩)
+        · cases hm
+    · rintro ⟨_, _, hp, hn1, hn2, hm⟩
+      refine ⟨⟨?_, by simp [hn1, hn2]⟩, hp⟩
+      rcases hm with hm | hm | ⟨hbb, hm⟩
+      · left; simp [hm]
+      · left; simp [hm]
+      · right; simp [hbb, hm]
+  · rename_i hc
+    constructor
+    · intro h; cases h
+    · rintro ⟨h1, h2, _⟩
+      exact absurd ⟨h1, h2⟩ hc
+
+/-- Formats with the epoch field are checkpoint-first for every metric history … -/
+theorem Inj.safeAt {P : Params} (hi : Inj P) (vals : List (Option Int)) (k : Nat) : SafeAt P vals k := by
   have hlb : bestOf (vals.take k) ≠ k + 1 := by
     have := bestOf_take_le vals k; omega
   have hkm1 : ¬ P.km (k + 1) = P.km k := fun h => by have := hi.km _ _ h; omega
   have hko1 : ¬ P.ko (k + 1) = P.ko k := fun h => by have := hi.ko _ _ h; omega
   have hkm2 : ¬ P.km (k + 1) = P.km (bestOf (vals.take k)) := fun h => hlb (hi.km _ _ h).symm
   have hko2 : ¬ P.ko (k + 1) = P.ko (bestOf (vals.take k)) := fun h => hlb (hi.ko _ _ h).symm
-  unfold planUpdate at h
-  simp only at h
-  split at h
-  · rename_i hkeep
-    split at h
-    · cases h
-    · split at h
-      · injection h with h
-        injection h with h1 h2
-        subst h1; subst h2
-        exact ⟨rfl, fun p hp => by cases hp⟩
-      · rename_i hne hcb
-        injection h with h
-        injection h with h1 h2
-        subst h2
-        refine ⟨?_, ?_⟩
-        · rw [← h1]; simp [hkm1, hko1, hkm2, hko2]
-        · intro p hp
-          rw [List.mem_filter] at hp
-          obtain ⟨hp1, hp2⟩ := hp
-          rw [List.mem_eraseDups, List.mem_filter] at hp1
-          refine ⟨hkeep, hcb, hp2, ?_⟩
-          have hp3 := hp1.1
-          rw [List.mem_append] at hp3
-          rcases hp3 with hp3 | hp3
-          · simp at hp3
-            rcases hp3 with hp3 | hp3
-            · exact Or.inl hp3
-            · exact Or.inr (Or.inl hp3)
-          · split at hp3
-            · rename_i hbb
-              simp at hp3
-              exact Or.inr (Or.inr ⟨hbb, hp3⟩)
-            · cases hp3
-  · injection h with h
-    injection h with h1 h2
-    subst h2
-    refine ⟨?_, fun p hp => by cases hp⟩
-    rw [← h1]
-    have : (List.range' 1 k).any (fun j => P.km j = P.km (k + 1) || P.ko j = P.ko (k + 1)) = false := by
-      rw [List.any_eq_false]
-      intro j hj
-      rw [List.mem_range'_1] at hj
-      have a : ¬ P.km j = P.km (k + 1) := fun h => by have := hi.km _ _ h; omega
-      have b : ¬ P.ko j = P.ko (k + 1) := fun h => by have := hi.ko _ _ h; omega
-      simp [a, b]
-    simp [Quirks.fixed, this]
+  constructor
+  · unfold refuses
+    simp only [Bool.and_eq_false_imp, decide_eq_false_iff_not]
+    rintro _ ⟨hne, h | h⟩
+    · exact hne (hi.km _ _ h).symm
+    · exact hne (hi.ko _ _ h).symm
+  · unfold infoFirst
+    simp only
+    split
+    · split
+      · rfl
+      · simp [hkm1, hko1, hkm2, hko2]
+    · have : (List.range' 1 k).any (fun j => P.km j = P.km (k + 1) || P.ko j = P.ko (k + 1)) = false := by
+        rw [List.any_eq_false]
+        intro j hj
+        rw [List.mem_range'_1] at hj
+        have a : ¬ P.km j = P.km (k + 1) := fun h => by have := hi.km _ _ h; omega
+        have b : ¬ P.ko j = P.ko (k + 1) := fun h => by have := hi.ko _ _ h; omega
+        simp [a, b]
+      simp [Quirks.fixed, this]
 
-/-! ## one update, operation by operation -/
+theorem Inj.safeFmt {P : Params} (hi : Inj P) (vals : List (Option Int)) : SafeFmt P vals :=
+  fun k _ => hi.safeAt vals k
 
-theorem histOps_eq (Q : Quirks) (d : Disk) (e : Nat) :
-    histOps Q d e = [.openAppend, .flush (histLines Q d e)] := rfl
+/-- … and never let the last and the best epoch share a name. -/
+theorem Inj.sep {P : Params} (hi : Inj P) (vals : List (Option Int)) (k : Nat) : Sep P vals k :=
+  fun _ hne => ⟨fun h => hne (hi.km _ _ h).symm, fun h => hne (hi.ko _ _ h).symm⟩
 
-/-- `save` followed by opening the history file: no flush, and only temp files and the two new
-paths are touched. -/
+/-- An update that did not refuse leaves the last and the best epoch under different names. -/
+theorem sep_of_not_refuses {P : Params} {vals : List (Option Int)} {k : Nat}
+    (h : refuses P vals k = false) : Sep P vals (k + 1) := by
+  intro hkeep hne
+  unfold refuses at h
+  simp only [hkeep, Bool.true_and, decide_eq_false_iff_not, not_and, not_or] at h
+  exact h hne
+
+theorem Sep_zero (P : Params) (vals : List (Option Int)) : Sep P vals 0 := by
+  intro _ hne
+  exact absurd (by simp [bestOf, bestSt]) hne
+
+theorem SafeFmt.sep {P : Params} {vals : List (Option Int)} (hs : SafeFmt P vals) (k : Nat)
+    (hk : k ≤ vals.length) : Sep P vals k := by
+  cases k with
+  | zero => exact Sep_zero P vals
+  | succ k => exact sep_of_not_refuses (hs k (by omega)).1
+
+/-! ## one update, call by call -/
+
+/-- `save` followed by opening the history file: no history line, and only temp files and the two
+new paths are touched. -/
 theorem safe_save (P : Params) (d0 : Disk) (e : Nat) (s : Nat × Nat) :
     ∀ op ∈ saveOps P d0 e s ++ [FsOp.openAppend],
-      ¬ isFlush op ∧ ∀ q, touches op q → (q = P.mpath e ∨ q = P.opath e ∨ ∃ t, q = Path.tmp t) := by
+      ¬ isHwrite op ∧ ∀ q, touches op q → (q = P.mpath e ∨ q = P.opath e ∨ ∃ t, q = Path.tmp t) := by
   intro op hop
   simp only [saveOps, List.cons_append, List.nil_append, List.mem_cons,
     List.not_mem_nil, or_false] at hop
   rcases hop with h | h | h | h | h | h | h | h | h <;> subst h <;>
-    simp only [isFlush, touches, not_false_eq_true, true_and, false_imp_iff, implies_true]
+    simp only [isHwrite, touches, not_false_eq_true, true_and, false_imp_iff, implies_true]
   · intro q hq; exact Or.inr (Or.inr ⟨_, hq⟩)
   · intro q hq; exact Or.inr (Or.inr ⟨_, hq⟩)
   · intro q hq; exact Or.inr (Or.inr ⟨_, hq⟩)
@@ -406,209 +535,59 @@ theorem safe_save (P : Params) (d0 : Disk) (e : Nat) (s : Nat × Nat) :
     · exact Or.inr (Or.inr ⟨_, hq⟩)
     · exact Or.inr (Or.inl hq)
 
-theorem prot_not_new {P : Params} (hi : Inj P) {k b : Nat} (hb : b ≤ k) {q : Path}
-    (hq : Prot P k b q) : ¬ (q = P.mpath (k + 1) ∨ q = P.opath (k + 1) ∨ ∃ t, q = Path.tmp t) := by
-  intro h
-  simp only [Prot, Params.mpath, Params.opath] at hq h
-  rcases hq with hq | hq | hq | hq <;> subst hq <;> rcases h with h | h | ⟨t, h⟩ <;>
-    first
-    | cases h
-    | (injection h with h; first | (have := hi.km _ _ h; omega) | (have := hi.ko _ _ h; omega))
-
-theorem step_main {P : Params} (hi : Inj P) {vals : List (Option Int)} {tr : Train} {d : Disk} {k : Nat}
-    (hrec : RecAt P vals tr d k) (hk : k < vals.length) {main : List FsOp} {cl : List Path}
-    (hplan : planUpdate Quirks.fixed P vals k d (U tr (k + 1)) = .ok (main, cl))
-    (cl' : List Path) (hcl : ∀ p ∈ cl', p ∈ cl) (i : Nat) :
-    (i ≤ 9 → RecAt P vals tr (exec d ((opsOf main cl').take i)) k) ∧
-    (10 ≤ i → RecAt P vals tr (exec d ((opsOf main cl').take i)) (k + 1)) := by
-  obtain ⟨hmain, hclp⟩ := plan_inj hi hplan
-  subst hmain
-  have hb := bestOf_take_le vals k
-  have hops : opsOf (saveOps P d (k + 1) (U tr (k + 1)) ++ histOps Quirks.fixed d (k + 1)) cl' =
-      (saveOps P d (k + 1) (U tr (k + 1)) ++ [FsOp.openAppend]) ++
-        ([FsOp.flush (histLines Quirks.fixed d (k + 1))] ++ cl'.map FsOp.remove) := by
-    simp [opsOf, histOps_eq]
-  have hlen : (saveOps P d (k + 1) (U tr (k + 1)) ++ [FsOp.openAppend]).length = 9 := by
-    simp [saveOps]
-  rw [hops]
-  constructor
-  · intro hi9
-    rw [List.take_append_of_le_length (by omega)]
-    apply RecAt_frame hrec
-    intro op hop
-    have hs := safe_save P d (k + 1) (U tr (k + 1)) op (List.mem_of_mem_take hop)
-    exact ⟨hs.1, fun q hq ht => prot_not_new hi hb hq (hs.2 q ht)⟩
-  · intro hi10
-    rw [List.take_append, List.take_of_length_le (by omega), hlen]
-    have h1 : i - 9 = (i - 10) + 1 := by omega
-    rw [h1, List.cons_append, List.nil_append, List.take_succ_cons]
-    rw [exec_append, exec_append, exec_cons]
-    -- the disk after save, open, flush
-    have hd10 : exec1 (exec (exec d (saveOps P d (k + 1) (U tr (k + 1)))) [FsOp.openAppend])
-        (FsOp.flush (histLines Quirks.fixed d (k + 1))) =
-        { exec d (saveOps P d (k + 1) (U tr (k + 1))) with
-          csv := some (d.csv.getD [] ++ histLines Quirks.fixed d (k + 1)) } := by
-      have := exec_histOps Quirks.fixed d (exec d (saveOps P d (k + 1) (U tr (k + 1)))) (k + 1)
-      rw [histOps_eq, exec_saveOps_csv] at this
-      exact this
-    rw [hd10]
-    obtain ⟨h1r, h2r, h3r, h4r, h5r⟩ := hrec
-    obtain ⟨hr', hh'⟩ := recorded_after_hist (f := d.files)
-      (f' := (exec d (saveOps P d (k + 1) (U tr (k + 1)))).files) (c := d.csv) (k := k) h1r h2r
-    -- loading the new epoch
-    have hnew : ∀ d' : Disk, d'.files = (exec d (saveOps P d (k + 1) (U tr (k + 1)))).files →
-        loadState P d' (k + 1) = some (U tr (k + 1)) := by
-      intro d' hd'
-      simp only [loadState, hd', exec_saveOps_get, Params.mpath, Params.opath, Nat.add_one_ne_zero,
-        if_false, if_true, reduceCtorEq]
-    have hold : ∀ d' : Disk, d'.files = (exec d (saveOps P d (k + 1) (U tr (k + 1)))).files →
-        ∀ j, j ≤ k → loadState P d' j = loadState P d j := by
-      intro d' hd' j hj
-      apply loadState_congr
-      · rw [hd', exec_saveOps_get]
-        have a : ¬ P.mpath j = P.opath (k + 1) := by simp [Params.mpath, Params.opath]
-        have b : ¬ P.mpath j = P.mpath (k + 1) := by
-          simp only [Params.mpath, Path.model.injEq]
-          intro h; have := hi.km _ _ h; omega
-        rw [if_neg a, if_neg b, if_neg (by simp [Params.mpath])]
-      · rw [hd', exec_saveOps_get]
-        have a : ¬ P.opath j = P.opath (k + 1) := by
-          simp only [Params.opath, Path.optim.injEq]
-          intro h; have := hi.ko _ _ h; omega
-        have b : ¬ P.opath j = P.mpath (k + 1) := by simp [Params.mpath, Params.opath]
-        rw [if_neg a, if_neg b, if_neg (by simp [Params.opath])]
-    have hrec10 : RecAt P vals tr
-        { exec d (saveOps P d (k + 1) (U tr (k + 1))) with
-          csv := some (d.csv.getD [] ++ histLines Quirks.fixed d (k + 1)) } (k + 1) := by
-      refine ⟨hr', hh', hk, hnew _ rfl, ?_⟩
-      rcases bestOf_take_succ vals k hk with hcb | hcb
-      · rw [hcb]; exact (hold _ rfl _ hb).trans h5r
-      · rw [hcb]; exact hnew _ rfl
-    apply RecAt_frame hrec10
-    intro op hop
-    have hop' := List.mem_of_mem_take hop
-    rw [List.mem_map] at hop'
-    obtain ⟨p, hp, rfl⟩ := hop'
-    obtain ⟨_, hcb, _, hpc⟩ := hclp p (hcl p hp)
-    refine ⟨fun h => h, ?_⟩
-    intro q hq ht
-    simp only [touches] at ht
-    subst ht
-    have hlb1 : bestOf (vals.take k) ≠ k + 1 := by omega
-    simp only [Prot, Params.mpath, Params.opath] at hq hpc
-    rcases hpc with hpc | hpc | ⟨hne, hpc | hpc⟩ <;> subst hpc <;> rcases hq with hq | hq | hq | hq <;>
-      first
-      | cases hq
-      | (injection hq with hq
-         first
-         | (have := hi.km _ _ hq; omega)
-         | (have := hi.ko _ _ hq; omega))
-
-/-! ## exact directory contents after a complete crash-free update -/
-
-theorem exec_removes_get (d : Disk) (cl : List Path) (q : Path) :
-    (exec d (cl.map FsOp.remove)).files.get q = if q ∈ cl then none else d.files.get q := by
-  induction cl generalizing d with
-  | nil => simp [exec_nil]
-  | cons p cl ih =>
-    rw [List.map_cons, exec_cons, ih]
-    simp only [exec1, Files.get_del, List.mem_cons]
-    by_cases h1 : q ∈ cl
-    · simp [h1]
-    · by_cases h2 : q = p
-      · simp [h2]
-      · simp [h1, h2]
-
-theorem exec_removes_csv (d : Disk) (cl : List Path) : (exec d (cl.map FsOp.remove)).csv = d.csv := by
-  induction cl generalizing d with
-  | nil => rfl
-  | cons p cl ih => rw [List.map_cons, exec_cons, ih]; rfl
-
-/-- The clean-up set of a keep-last-and-best update, exactly. -/
-theorem plan_cl_iff {P : Params} (hkeep : P.keepLB = true) {vals : List (Option Int)} {k : Nat} {d : Disk}
-    {s : Nat × Nat} {main : List FsOp} {cl : List Path}
-    (h : planUpdate Quirks.fixed P vals k d s = .ok (main, cl)) (q : Path) :
-    q ∈ cl ↔ (bestOf (vals.take (k + 1)) ≠ k ∧ present d q = true ∧
-      q ≠ P.mpath (k + 1) ∧ q ≠ P.opath (k + 1) ∧
-      (q = P.mpath k ∨ q = P.opath k ∨
-        (bestOf (vals.take k) ≠ bestOf (vals.take (k + 1)) ∧
-          (q = P.mpath (bestOf (vals.take k)) ∨ q = P.opath (bestOf (vals.take k)))))) := by
-  unfold planUpdate at h
-  simp only [hkeep, if_true] at h
-  split at h
-  · cases h
-  · split at h
-    · rename_i hcb
-      injection h with h
-      injection h with h1 h2
-      subst h2
-      simp [hcb]
-    · rename_i hcb
-      injection h with h
-      injection h with h1 h2
-      subst h2
-      rw [List.mem_filter, List.mem_eraseDups, List.mem_filter, List.mem_append]
-      constructor
-      · rintro ⟨⟨hm, hne⟩, hp⟩
-        simp only [ne_eq, decide_eq_true_eq] at hne
-        refine ⟨hcb, hp, hne.1, hne.2, ?_⟩
-        rcases hm with hm | hm
-        · simp at hm
-          rcases hm with hm | hm
-          · exact Or.inl hm
-          · exact Or.inr (Or.inl hm)
-        · split at hm
-          · rename_i hbb
-            simp at hm
-            exact Or.inr (Or.inr ⟨hbb, hm⟩)
-          · cases hm
-      · rintro ⟨_, hp, hn1, hn2, hm⟩
-        refine ⟨⟨?_, by simp [hn1, hn2]⟩, hp⟩
-        rcases hm with hm | hm | ⟨hbb, hm⟩
-        · left; simp [hm]
-        · left; simp [hm]
-        · right; simp [hbb, hm]
-
-theorem mem_epochPaths (P : Params) (e : Nat) (q : Path) :
-    q ∈ epochPaths P e ↔ e ≠ 0 ∧ (q = P.mpath e ∨ q = P.opath e) := by
-  unfold epochPaths
-  by_cases h : e = 0
-  · simp [h]
-  · simp [h]
-
-theorem exact_step {P : Params} (hi : Inj P) (hkeep : P.keepLB = true) {vals : List (Option Int)}
-    {tr : Train} {d : Disk} {k : Nat} (hex : ExactLB P vals d k) (hk : k < vals.length)
-    {main : List FsOp} {cl : List Path}
-    (hplan : planUpdate Quirks.fixed P vals k d (U tr (k + 1)) = .ok (main, cl))
-    (cl' : List Path) (hcl : ∀ p, p ∈ cl' ↔ p ∈ cl) :
-    ExactLB P vals (exec d (opsOf main cl')) (k + 1) := by
-  obtain ⟨hmain, _⟩ := plan_inj hi hplan
-  subst hmain
+/-- Checkpoint-first: the new paths are not among the files `Rec` looks at before the update. -/
+theorem new_not_prot {P : Params} {vals : List (Option Int)} {k : Nat} (hk : k < vals.length)
+    (hs : SafeAt P vals k) {q : Path} (hq : Prot P k (bestOf (vals.take k)) q) :
+    ¬ (q = P.mpath (k + 1) ∨ q = P.opath (k + 1) ∨ ∃ t, q = Path.tmp t) := by
+  obtain ⟨hr, hif⟩ := hs
   have hb := bestOf_take_le vals k
   have hcb := bestOf_take_succ vals k hk
-  intro q
-  have hmem := plan_cl_iff hkeep hplan q
-  have hexq := hex q
-  rw [← hcl q] at hmem
-  have hfin : (exec d (opsOf (saveOps P d (k + 1) (U tr (k + 1)) ++ histOps Quirks.fixed d (k + 1)) cl')).files.get q
-      = if q ∈ cl' then none else (exec d (saveOps P d (k + 1) (U tr (k + 1)))).files.get q := by
-    rw [opsOf, List.append_assoc, exec_append, exec_append, exec_removes_get, exec_histOps]
-  rw [hfin, exec_saveOps_get]
-  simp only [List.mem_append, mem_epochPaths] at hexq ⊢
-  simp only [present] at hmem
-  generalize bestOf (vals.take k) = b at *
-  generalize bestOf (vals.take (k + 1)) = cb at *
-  have km_inj : ∀ a c, P.mpath a = P.mpath c ↔ a = c := fun a c =>
-    ⟨fun h => hi.km _ _ (by simpa [Params.mpath] using h), fun h => by rw [h]⟩
-  have ko_inj : ∀ a c, P.opath a = P.opath c ↔ a = c := fun a c =>
-    ⟨fun h => hi.ko _ _ (by simpa [Params.opath] using h), fun h => by rw [h]⟩
-  have mo : ∀ a c, P.mpath a ≠ P.opath c := fun a c => by simp [Params.mpath, Params.opath]
-  have om : ∀ a c, P.opath a ≠ P.mpath c := fun a c => by simp [Params.mpath, Params.opath]
-  have mt : ∀ a t, P.mpath a ≠ Path.tmp t := fun a c => by simp [Params.mpath]
-  have ot : ∀ a t, P.opath a ≠ Path.tmp t := fun a c => by simp [Params.opath]
-  grind
-
-/-! ## keep everything: every recorded epoch stays loadable, crash or not -/
+  -- the names of the new epoch differ from those of epoch `j` for `j = k` and `j = lastBest` (when ≥ 1)
+  have key : ∀ j, j ≠ 0 → (j = k ∨ j = bestOf (vals.take k)) →
+      P.km (k + 1) ≠ P.km j ∧ P.ko (k + 1) ≠ P.ko j := by
+    intro j hj0 hj
+    unfold refuses at hr
+    unfold infoFirst at hif
+    simp only at hr hif
+    cases hkeep : P.keepLB with
+    | true =>
+      simp only [hkeep, Bool.true_and, decide_eq_false_iff_not, not_and, not_or, if_true] at hr hif
+      split at hif
+      · rename_i hck
+        -- cur_best = k: then last_best = k as well
+        have hlb : bestOf (vals.take k) = k := by
+          rcases hcb with h | h
+          · rw [← h]; exact hck
+          · omega
+        have hj' : j = k := by rcases hj with h | h <;> omega
+        subst hj'
+        have := hr (by omega)
+        rw [hck] at this
+        exact this
+      · simp only [decide_eq_false_iff_not, not_or] at hif
+        rcases hj with h | h <;> subst h
+        · exact ⟨hif.1, hif.2.2.1⟩
+        · exact ⟨hif.2.1, hif.2.2.2⟩
+    | false =>
+      simp only [hkeep, Bool.false_eq_true, if_false, Quirks.fixed] at hif
+      rw [List.any_eq_false] at hif
+      have hjk : j ≤ k := by rcases hj with h | h <;> omega
+      have := hif j (by rw [List.mem_range'_1]; omega)
+      simp only [Bool.or_eq_true, decide_eq_true_eq, not_or] at this
+      exact ⟨fun h => this.1 h.symm, fun h => this.2 h.symm⟩
+  simp only [Prot, List.mem_append, mem_epochPaths] at hq
+  intro h
+  rcases hq with ⟨h0, hq⟩ | ⟨h0, hq⟩
+  · have := key k h0 (Or.inl rfl)
+    rcases hq with rfl | rfl <;> rcases h with h | h | ⟨t, h⟩ <;>
+      simp only [Params.mpath, Params.opath, Path.model.injEq, Path.optim.injEq, reduceCtorEq] at h
+    · exact this.1 h.symm
+    · exact this.2 h.symm
+  · have := key _ h0 (Or.inr rfl)
+    rcases hq with rfl | rfl <;> rcases h with h | h | ⟨t, h⟩ <;>
+      simp only [Params.mpath, Params.opath, Path.model.injEq, Path.optim.injEq, reduceCtorEq] at h
+    · exact this.1 h.symm
+    · exact this.2 h.symm
 
 theorem load_new_after_save (P : Params) (d0 d d' : Disk) (e : Nat) (s : Nat × Nat)
     (hd' : d'.files = (exec d (saveOps P d0 (e + 1) s)).files) :
@@ -616,447 +595,139 @@ theorem load_new_after_save (P : Params) (d0 d d' : Disk) (e : Nat) (s : Nat × 
   simp only [loadState, hd', exec_saveOps_get, Params.mpath, Params.opath, Nat.add_one_ne_zero,
     if_false, if_true, reduceCtorEq]
 
-theorem load_old_after_save {P : Params} (hi : Inj P) (d0 d d' : Disk) (k : Nat) (s : Nat × Nat)
-    (hd' : d'.files = (exec d (saveOps P d0 (k + 1) s)).files) (j : Nat) (hj : j ≤ k) :
-    loadState P d' j = loadState P d j := by
-  apply loadState_congr
-  · rw [hd', exec_saveOps_get]
-    have a : ¬ P.mpath j = P.opath (k + 1) := by simp [Params.mpath, Params.opath]
-    have b : ¬ P.mpath j = P.mpath (k + 1) := by
-      simp only [Params.mpath, Path.model.injEq]
-      intro h; have := hi.km _ _ h; omega
-    rw [if_neg a, if_neg b, if_neg (by simp [Params.mpath])]
-  · rw [hd', exec_saveOps_get]
-    have a : ¬ P.opath j = P.opath (k + 1) := by
-      simp only [Params.opath, Path.optim.injEq]
-      intro h; have := hi.ko _ _ h; omega
-    have b : ¬ P.opath j = P.mpath (k + 1) := by simp [Params.mpath, Params.opath]
-    rw [if_neg a, if_neg b, if_neg (by simp [Params.opath])]
+/-- Everything before the data row is written: `save`, `open`, and (first update only) the header
+line. `k` epochs stay recorded, last and best stay loadable. -/
+theorem before_row {P : Params} {vals : List (Option Int)} {tr : Train} {d : Disk} {k : Nat}
+    (hrec : RecAt P vals tr d k) (hk : k < vals.length) (hs : SafeAt P vals k) (s : Nat × Nat) (i : Nat)
+    (hi : i < 8 + (histOps Quirks.fixed d (k + 1)).length) :
+    RecAt P vals tr (exec d ((saveOps P d (k + 1) s ++ histOps Quirks.fixed d (k + 1)).take i)) k := by
+  have hframe : ∀ j, RecAt P vals tr (exec d ((saveOps P d (k + 1) s ++ [FsOp.openAppend]).take j)) k := by
+    intro j
+    apply RecAt_frame hrec
+    intro op hop
+    have hsv := safe_save P d (k + 1) s op (List.mem_of_mem_take hop)
+    exact ⟨hsv.1, fun q hq ht => new_not_prot hk hs hq (hsv.2 q ht)⟩
+  have hlen : (saveOps P d (k + 1) s ++ [FsOp.openAppend]).length = 9 := by simp [saveOps]
+  by_cases hwh : writeHeader Quirks.fixed d = true
+  · have hh : histOps Quirks.fixed d (k + 1) = [.openAppend, .hwrite .header, .hwrite (.row (k + 1))] := by
+      simp [histOps, histLines, hwh]
+    rw [hh] at hi ⊢
+    have hsplit : saveOps P d (k + 1) s ++ [FsOp.openAppend, .hwrite .header, .hwrite (.row (k + 1))] =
+        (saveOps P d (k + 1) s ++ [FsOp.openAppend]) ++ [.hwrite .header, .hwrite (.row (k + 1))] := by
+      simp
+    rw [hsplit]
+    by_cases h9 : i ≤ 9
+    · rw [List.take_append_of_le_length (by omega)]
+      exact hframe i
+    · have hi10 : i = 10 := by simp at hi; omega
+      subst hi10
+      rw [List.take_append, List.take_of_length_le (by omega), hlen]
+      simp only [Nat.reduceSub, List.take_succ_cons, List.take_zero]
+      rw [exec_append, exec_cons, exec_nil]
+      have h9' := hframe 9
+      rw [List.take_of_length_le (by omega)] at h9'
+      apply RecAt_hwrite_header h9'
+      obtain ⟨_, _, hc, _⟩ := exec_frame (fun _ => False) (saveOps P d (k + 1) s ++ [FsOp.openAppend]) d
+        (fun op hop => ⟨(safe_save P d (k + 1) s op hop).1, fun _ h => h.elim⟩)
+      rw [hc]
+      exact (writeHeader_iff d).1 hwh
+  · have hh : histOps Quirks.fixed d (k + 1) = [.openAppend, .hwrite (.row (k + 1))] := by
+      simp [histOps, histLines, hwh]
+    rw [hh] at hi ⊢
+    have hsplit : saveOps P d (k + 1) s ++ [FsOp.openAppend, .hwrite (.row (k + 1))] =
+        (saveOps P d (k + 1) s ++ [FsOp.openAppend]) ++ [.hwrite (.row (k + 1))] := by
+      simp
+    rw [hsplit, List.take_append_of_le_length (by simp at hi; omega)]
+    exact hframe i
 
-theorem keepall_step {P : Params} (hi : Inj P) (hkeep : P.keepLB = false) {vals : List (Option Int)}
-    {tr : Train} {d : Disk} {k : Nat} (hall : AllLoadable P tr d k)
-    {main : List FsOp} {cl : List Path}
-    (hplan : planUpdate Quirks.fixed P vals k d (U tr (k + 1)) = .ok (main, cl)) (i : Nat) :
-    cl = [] ∧ (i ≤ 9 → AllLoadable P tr (exec d ((opsOf main cl).take i)) k) ∧
-      (10 ≤ i → AllLoadable P tr (exec d ((opsOf main cl).take i)) (k + 1)) := by
-  obtain ⟨hmain, hclp⟩ := plan_inj hi hplan
-  have hcl : cl = [] := by
-    rw [List.eq_nil_iff_forall_not_mem]
-    intro p hp
-    have := (hclp p hp).1
-    rw [hkeep] at this
-    cases this
-  subst hcl
-  subst hmain
-  refine ⟨rfl, ?_, ?_⟩
-  · intro h9
-    have hops : opsOf (saveOps P d (k + 1) (U tr (k + 1)) ++ histOps Quirks.fixed d (k + 1)) [] =
-        (saveOps P d (k + 1) (U tr (k + 1)) ++ [FsOp.openAppend]) ++
-          [FsOp.flush (histLines Quirks.fixed d (k + 1))] := by
-      simp [opsOf, histOps_eq]
-    have hlen : (saveOps P d (k + 1) (U tr (k + 1)) ++ [FsOp.openAppend]).length = 9 := by
-      simp [saveOps]
-    rw [hops, List.take_append_of_le_length (by omega)]
-    intro j hj1 hjk
-    have hfr := exec_frame (fun q => ∃ j, j ≤ k ∧ (q = P.mpath j ∨ q = P.opath j))
-      ((saveOps P d (k + 1) (U tr (k + 1)) ++ [FsOp.openAppend]).take i) d (by
-        intro op hop
-        have hs := safe_save P d (k + 1) (U tr (k + 1)) op (List.mem_of_mem_take hop)
-        refine ⟨hs.1, ?_⟩
-        rintro q ⟨j', hj', hq⟩ ht
-        have := hs.2 q ht
-        simp only [Params.mpath, Params.opath] at hq this
-        rcases hq with hq | hq <;> subst hq <;> rcases this with h | h | ⟨t, h⟩ <;>
-          first
-          | cases h
-          | (injection h with h; first | (have := hi.km _ _ h; omega) | (have := hi.ko _ _ h; omega)))
-    rw [loadState_congr P j (hfr.2.2 _ ⟨j, hjk, Or.inl rfl⟩) (hfr.2.2 _ ⟨j, hjk, Or.inr rfl⟩)]
-    exact hall j hj1 hjk
-  · intro h10
-    have hlen : (opsOf (saveOps P d (k + 1) (U tr (k + 1)) ++ histOps Quirks.fixed d (k + 1)) []).length = 10 := by
-      simp [opsOf, saveOps, histOps]
-    rw [List.take_of_length_le (by omega)]
-    have hfiles : (exec d (opsOf (saveOps P d (k + 1) (U tr (k + 1)) ++ histOps Quirks.fixed d (k + 1)) [])).files =
-        (exec d (saveOps P d (k + 1) (U tr (k + 1)))).files := by
-      simp only [opsOf, List.map_nil, List.append_nil]
-      rw [exec_append, exec_histOps]
-    intro j hj1 hjk
-    by_cases hj : j ≤ k
-    · rw [load_old_after_save hi d d _ k _ hfiles j hj]
-      exact hall j hj1 hj
-    · have : j = k + 1 := by omega
-      subst this
-      exact load_new_after_save P d d _ k _ hfiles
+/-- After the data row: `k+1` epochs are recorded; removals of the clean-up set (any part of it, in
+any order, any number of them) do not touch what `Rec` looks at. -/
+theorem after_row {P : Params} {vals : List (Option Int)} {tr : Train} {d : Disk} {k : Nat}
+    (hrec : RecAt P vals tr d k) (hk : k < vals.length) (hs : SafeAt P vals k) (hsep : Sep P vals k)
+    (cl' : List Path) (hcl : ∀ p ∈ cl', p ∈ cleanSet P vals k d) (m : Nat) :
+    RecAt P vals tr (exec (exec d (saveOps P d (k + 1) (U tr (k + 1)) ++ histOps Quirks.fixed d (k + 1)))
+      ((cl'.map FsOp.remove).take m)) (k + 1) := by
+  have hb := bestOf_take_le vals k
+  have hd10 : exec d (saveOps P d (k + 1) (U tr (k + 1)) ++ histOps Quirks.fixed d (k + 1)) =
+      { exec d (saveOps P d (k + 1) (U tr (k + 1))) with
+        csv := some (d.csv.getD [] ++ histLines Quirks.fixed d (k + 1)) } := by
+    rw [exec_append, exec_histOps, exec_saveOps_csv]
+  rw [hd10]
+  obtain ⟨h1r, h2r, h3r, h4r, h5r⟩ := hrec
+  obtain ⟨hr', hh'⟩ := recorded_after_hist (f := d.files)
+    (f' := (exec d (saveOps P d (k + 1) (U tr (k + 1)))).files) (c := d.csv) (k := k) h1r h2r
+  have hnew : ∀ d' : Disk, d'.files = (exec d (saveOps P d (k + 1) (U tr (k + 1)))).files →
+      loadState P d' (k + 1) = some (U tr (k + 1)) :=
+    fun d' hd' => load_new_after_save P d d d' k _ hd'
+  -- the previous best is not overwritten by the save
+  have hold : ∀ d' : Disk, d'.files = (exec d (saveOps P d (k + 1) (U tr (k + 1)))).files →
+      loadState P d' (bestOf (vals.take k)) = loadState P d (bestOf (vals.take k)) := by
+    intro d' hd'
+    apply loadState_congr
+    intro q hq
+    have hnp := new_not_prot hk hs (q := q) (List.mem_append_right _ hq)
+    simp only [not_or, not_exists] at hnp
+    rw [hd', exec_saveOps_get, if_neg hnp.2.1, if_neg hnp.1,
+      if_neg (by rintro (h | h); exact hnp.2.2 _ h; exact hnp.2.2 _ h)]
+  have hrec10 : RecAt P vals tr
+      { exec d (saveOps P d (k + 1) (U tr (k + 1))) with
+        csv := some (d.csv.getD [] ++ histLines Quirks.fixed d (k + 1)) } (k + 1) := by
+    refine ⟨hr', hh', hk, hnew _ rfl, ?_⟩
+    rcases bestOf_take_succ vals k hk with hcb | hcb
+    · rw [hcb]; exact (hold _ rfl).trans h5r
+    · rw [hcb]; exact hnew _ rfl
+  apply RecAt_frame hrec10
+  intro op hop
+  have hop' := List.mem_of_mem_take hop
+  rw [List.mem_map] at hop'
+  obtain ⟨p, hp, rfl⟩ := hop'
+  obtain ⟨hkeep, hcb, _, hn1, hn2, hpc⟩ := (mem_cleanSet_iff P vals k d p).1 (hcl p hp)
+  refine ⟨fun h => h, ?_⟩
+  intro q hq ht
+  simp only [touches] at ht
+  subst ht
+  simp only [Prot, List.mem_append, mem_epochPaths] at hq
+  rcases hq with ⟨_, hq⟩ | ⟨hcb0, hq⟩
+  · rcases hq with hq | hq
+    · exact hn1 hq
+    · exact hn2 hq
+  · rcases bestOf_take_succ vals k hk with hcbe | hcbe
+    · -- the best epoch did not change: it is not epoch `k`, so `Sep` keeps its names apart from `k`'s
+      rw [hcbe] at hq hcb
+      have hsep' := hsep hkeep (fun h => hcb h)
+      rcases hpc with hpc | hpc | ⟨hne, _⟩
+      · subst hpc
+        rcases hq with hq | hq <;>
+          simp only [Params.mpath, Params.opath, Path.model.injEq, reduceCtorEq] at hq
+        exact hsep'.1 hq
+      · subst hpc
+        rcases hq with hq | hq <;>
+          simp only [Params.mpath, Params.opath, Path.optim.injEq, reduceCtorEq] at hq
+        exact hsep'.2 hq
+      · exact hne hcbe.symm
+    · rw [hcbe] at hq
+      rcases hq with hq | hq
+      · exact hn1 hq
+      · exact hn2 hq
 
-/-! # Sessions, crash schedules, exactness, keep-everything (proofs of the property theorems) -/
-
-/-! ## crash safety, operation by operation -/
-
-/-- With epoch-keyed names the update never refuses. -/
-theorem c16_never_refuses {P : Params} (hi : Inj P) (Q : Quirks) (vals : List (Option Int)) (k : Nat)
-    (d : Disk) (s : Nat × Nat) : ∃ main cl, planUpdate Q P vals k d s = .ok (main, cl) := by
-  unfold planUpdate
-  simp only
-  split
-  · split
-    · rename_i h
-      exfalso
-      obtain ⟨hne, h | h⟩ := h
-      · exact hne (hi.km _ _ h).symm
-      · exact hne (hi.ko _ _ h).symm
-    · split <;> exact ⟨_, _, rfl⟩
-  · exact ⟨_, _, rfl⟩
-
-/-- **Every single mutating call of every update preserves recoverability.** `d` is any disk on
-which a new controller recovers (`Rec`: garbage allowed, so `d` may be the result of any number of
-earlier crashes); the controller has `k` epochs recorded and saves the state `U tr (k+1)`; the
-clean-up may run in any order and over any part `cl'` of the planned set; the process may be killed
-after any number `i` of the mutating calls. -/
-theorem c16_rec_step {P : Params} (hi : Inj P) (vals : List (Option Int)) (tr : Train) (d : Disk)
-    (hrec : Rec P vals tr d) (k : Nat) (hk : recorded d = some k) (hlt : k < vals.length)
-    (main : List FsOp) (cl : List Path)
-    (hplan : planUpdate Quirks.fixed P vals k d (tr (k + 1) (U tr k)) = .ok (main, cl))
-    (cl' : List Path) (hcl : ∀ p ∈ cl', p ∈ cl) (i : Nat) :
-    Rec P vals tr (exec d ((opsOf main cl').take i)) := by
-  obtain ⟨k', hk'⟩ := hrec
-  have hk' : RecAt P vals tr d k' := hk'
-  have : k = k' := hk'.unique hk
-  subst this
-  have h := step_main hi hk' hlt (show planUpdate Quirks.fixed P vals k d (U tr (k + 1)) = _ from hplan)
-    cl' hcl i
-  by_cases h9 : i ≤ 9
-  · exact (h.1 h9).rec
-  · exact (h.2 (by omega)).rec
-
-/-- The same for a complete update: afterwards `k+1` epochs are recorded. -/
-theorem c16_rec_full {P : Params} (hi : Inj P) (vals : List (Option Int)) (tr : Train) (d : Disk)
-    (k : Nat) (hrec : RecAt P vals tr d k) (hlt : k < vals.length)
-    (main : List FsOp) (cl : List Path)
-    (hplan : planUpdate Quirks.fixed P vals k d (tr (k + 1) (U tr k)) = .ok (main, cl))
-    (cl' : List Path) (hcl : ∀ p ∈ cl', p ∈ cl) :
-    RecAt P vals tr (exec d (opsOf main cl')) (k + 1) := by
-  have h := step_main hi hrec hlt (show planUpdate Quirks.fixed P vals k d (U tr (k + 1)) = _ from hplan)
-    cl' hcl ((opsOf main cl').length + 10)
-  rw [List.take_of_length_le (by omega)] at h
-  exact h.2 (by omega)
-
-/-! ## sessions: any sequence of crashes and restarts -/
-
-theorem startSession_of_RecAt {P : Params} {vals : List (Option Int)} {tr : Train} {d : Disk} {k : Nat}
-    (h : RecAt P vals tr d k) : startSession P d = some (k, U tr k) := by
-  simp [startSession, h.1, h.2.2.2.1]
-
-theorem updateFull_of_RecAt {P : Params} (hi : Inj P) {vals : List (Option Int)} {tr : Train} {d : Disk}
-    {k : Nat} (h : RecAt P vals tr d k) (hlt : k < vals.length) :
-    ∃ d', updateFull Quirks.fixed P vals tr k (U tr k) d = .ok (d', U tr (k + 1)) ∧
-      RecAt P vals tr d' (k + 1) := by
-  obtain ⟨main, cl, hp⟩ := c16_never_refuses hi Quirks.fixed vals k d (tr (k + 1) (U tr k))
-  refine ⟨exec d (opsOf main cl), ?_, c16_rec_full hi vals tr d k h hlt main cl hp cl (fun _ h => h)⟩
-  simp [updateFull, hp, U]
-
-theorem runLoop_of_RecAt {P : Params} (hi : Inj P) {vals : List (Option Int)} {tr : Train} :
-    ∀ (fuel k : Nat) (d : Disk), RecAt P vals tr d k → k + fuel ≤ vals.length →
-      ∃ d', runLoop Quirks.fixed P vals tr fuel k (U tr k) d = (k + fuel, U tr (k + fuel), d') ∧
-        RecAt P vals tr d' (k + fuel) := by
-  intro fuel
-  induction fuel with
-  | zero => intro k d h _; exact ⟨d, rfl, h⟩
-  | succ f ih =>
-    intro k d h hle
-    obtain ⟨d1, hu, h1⟩ := updateFull_of_RecAt hi h (by omega)
-    obtain ⟨d2, hr, h2⟩ := ih (k + 1) d1 h1 (by omega)
-    refine ⟨d2, ?_, ?_⟩
-    · simp only [runLoop, hu]
-      rw [hr]
-      have : k + 1 + f = k + (f + 1) := by omega
-      rw [this]
-    · have : k + 1 + f = k + (f + 1) := by omega
-      rw [← this]; exact h2
-
-/-- A session killed anywhere leaves a recoverable disk. -/
-theorem c16_rec_crashSession {P : Params} (hi : Inj P) (vals : List (Option Int)) (tr : Train) (d : Disk)
-    (hrec : Rec P vals tr d) (j i : Nat) :
-    Rec P vals tr (crashSession Quirks.fixed P vals tr d j i) := by
-  obtain ⟨k, hk⟩ := hrec
-  have hk : RecAt P vals tr d k := hk
-  have hle : k + min j (vals.length - k) ≤ vals.length := by
-    have := hk.2.2.1; omega
-  obtain ⟨d', hr, h'⟩ := runLoop_of_RecAt hi (min j (vals.length - k)) k d hk hle
-  simp only [crashSession, startSession_of_RecAt hk, hr]
-  split
-  · rename_i hlt
-    obtain ⟨main, cl, hp⟩ := c16_never_refuses hi Quirks.fixed vals (k + min j (vals.length - k)) d'
-      (tr (k + min j (vals.length - k) + 1) (U tr (k + min j (vals.length - k))))
-    simp only [updateCrashed, hp]
-    exact c16_rec_step hi vals tr d' h'.rec _ h'.1 hlt main cl hp cl (fun _ h => h) i
-  · exact h'.rec
-
-theorem runToEnd_of_RecAt {P : Params} (hi : Inj P) {vals : List (Option Int)} {tr : Train} {d : Disk}
-    {k : Nat} (hk : RecAt P vals tr d k) :
-    RecAt P vals tr (runToEnd Quirks.fixed P vals tr d) vals.length := by
-  have hle : k + (vals.length - k) ≤ vals.length := by have := hk.2.2.1; omega
-  obtain ⟨d', hr, h'⟩ := runLoop_of_RecAt hi (vals.length - k) k d hk hle
-  simp only [runToEnd, startSession_of_RecAt hk, hr]
-  have : k + (vals.length - k) = vals.length := by have := hk.2.2.1; omega
-  rw [this] at h'
-  exact h'
-
-/-- The history file of a disk on which all `n ≥ 1` epochs are recorded. -/
-theorem rowsOf_eq {rest : List Line} {es : List Nat} (h : rowsOf rest = some es) :
-    rest = es.map Line.row := by
-  induction rest generalizing es with
-  | nil => simp [rowsOf] at h; subst h; rfl
-  | cons l rest ih =>
-    cases l with
-    | header => simp [rowsOf] at h
-    | row x =>
-      simp only [rowsOf, Option.map_eq_some_iff] at h
-      obtain ⟨es', h1, h2⟩ := h
-      subst h2
-      rw [ih h1]; rfl
-
-theorem csv_of_RecAt {P : Params} {vals : List (Option Int)} {tr : Train} {d : Disk} {n : Nat}
-    (h : RecAt P vals tr d n) (hn : 0 < n) :
-    d.csv = some (Line.header :: (List.range' 1 n).map Line.row) := by
-  have hp := recorded_range (f := d.files) (c := d.csv) h.1
-  have hh := h.2.1
-  match hc : d.csv with
-  | none =>
-    rw [hc] at hp
-    cases n with
-    | zero => omega
-    | succ m => simp [parseCsv, List.range'] at hp
-  | some [] =>
-    rw [hc] at hp
-    cases n with
-    | zero => omega
-    | succ m => simp [parseCsv, List.range'] at hp
-  | some (.header :: rest) =>
-    rw [hc] at hp
-    rw [parseCsv_header] at hp
-    rw [rowsOf_eq hp]
-  | some (.row _ :: _) => rw [hc] at hh; simp [csvHealthy] at hh
-
-/-- **Resume.** Any number of sessions, each killed after any number of completed updates and any
-number of mutating calls of the next one, followed by a session that runs to the end: the disk is
-recoverable, all epochs are recorded, and the history file is the one of the uninterrupted run. -/
-theorem c16_resume {P : Params} (hi : Inj P) (vals : List (Option Int)) (tr : Train) (d : Disk)
-    (hrec : Rec P vals tr d) (sched : List (Nat × Nat)) :
-    RecAt P vals tr (faulty Quirks.fixed P vals tr d sched) vals.length := by
-  induction sched generalizing d with
-  | nil =>
-    obtain ⟨k, hk⟩ := hrec
-    have hk : RecAt P vals tr d k := hk
-    exact runToEnd_of_RecAt hi hk
-  | cons x rest ih =>
-    obtain ⟨j, i⟩ := x
-    exact ih _ (c16_rec_crashSession hi vals tr d hrec j i)
-
-theorem Rec_blank (P : Params) (vals : List (Option Int)) (tr : Train) : RecAt P vals tr Disk.blank 0 := by
-  refine ⟨rfl, rfl, Nat.zero_le _, rfl, ?_⟩
-  simp [bestOf, bestSt, loadState, U]
-
-/-- The history file after any crash/restart sequence equals the uninterrupted run's. -/
-theorem c16_resume_history {P : Params} (hi : Inj P) (vals : List (Option Int)) (tr : Train)
-    (hn : 0 < vals.length) (sched : List (Nat × Nat)) :
-    (faulty Quirks.fixed P vals tr Disk.blank sched).csv =
-      (runToEnd Quirks.fixed P vals tr Disk.blank).csv := by
-  have a := c16_resume hi vals tr Disk.blank (Rec_blank P vals tr).rec sched
-  have b := c16_resume hi vals tr Disk.blank (Rec_blank P vals tr).rec []
-  rw [csv_of_RecAt a hn]
-  have : faulty Quirks.fixed P vals tr Disk.blank [] = runToEnd Quirks.fixed P vals tr Disk.blank := rfl
-  rw [this] at b
-  rw [csv_of_RecAt b hn]
-
-/-! ## exactness of the directory in crash-free runs (keep last and best only) -/
-
-/-- One complete update, clean-up in any order: if the directory held exactly the files of the
-last and best epoch before, it does so afterwards. -/
-theorem c16_exact_step {P : Params} (hi : Inj P) (hkeep : P.keepLB = true) (vals : List (Option Int))
-    (tr : Train) (d : Disk) (k : Nat) (hex : ExactLB P vals d k) (hk : k < vals.length)
-    (main : List FsOp) (cl : List Path)
-    (hplan : planUpdate Quirks.fixed P vals k d (tr (k + 1) (U tr k)) = .ok (main, cl))
-    (cl' : List Path) (hcl : ∀ p, p ∈ cl' ↔ p ∈ cl) :
-    ExactLB P vals (exec d (opsOf main cl')) (k + 1) :=
-  exact_step hi hkeep hex hk (show planUpdate Quirks.fixed P vals k d (U tr (k + 1)) = _ from hplan) cl' hcl
-
-theorem ExactLB_blank (P : Params) (vals : List (Option Int)) : ExactLB P vals Disk.blank 0 := by
-  intro q
-  simp [Disk.blank, Files.get, epochPaths, bestOf, bestSt]
-
-theorem runLoop_exact {P : Params} (hi : Inj P) (hkeep : P.keepLB = true) {vals : List (Option Int)}
-    {tr : Train} :
-    ∀ (fuel k : Nat) (d : Disk), RecAt P vals tr d k → ExactLB P vals d k → k + fuel ≤ vals.length →
-      ∃ d', runLoop Quirks.fixed P vals tr fuel k (U tr k) d = (k + fuel, U tr (k + fuel), d') ∧
-        RecAt P vals tr d' (k + fuel) ∧ ExactLB P vals d' (k + fuel) := by
-  intro fuel
-  induction fuel with
-  | zero => intro k d h he _; exact ⟨d, rfl, h, he⟩
-  | succ f ih =>
-    intro k d h he hle
-    obtain ⟨main, cl, hp⟩ := c16_never_refuses hi Quirks.fixed vals k d (tr (k + 1) (U tr k))
-    have h1 := c16_rec_full hi vals tr d k h (by omega) main cl hp cl (fun _ h => h)
-    have he1 := c16_exact_step hi hkeep vals tr d k he (by omega) main cl hp cl (fun _ => Iff.rfl)
-    obtain ⟨d2, hr, h2, he2⟩ := ih (k + 1) _ h1 he1 (by omega)
-    have hu : updateFull Quirks.fixed P vals tr k (U tr k) d = .ok (exec d (opsOf main cl), U tr (k + 1)) := by
-      simp [updateFull, hp, U]
-    have e : k + 1 + f = k + (f + 1) := by omega
-    refine ⟨d2, ?_, ?_, ?_⟩
-    · simp only [runLoop, hu]; rw [hr, e]
-    · rw [← e]; exact h2
-    · rw [← e]; exact he2
-
-/-- **Last-and-best only, no crash:** after every completed update `j` of a run that starts on an
-empty directory, the directory holds exactly the files of the last and of the best epoch. -/
-theorem c16_exact_nocrash {P : Params} (hi : Inj P) (hkeep : P.keepLB = true) (vals : List (Option Int))
-    (tr : Train) (j : Nat) (hj : j ≤ vals.length) :
-    ∃ d, runLoop Quirks.fixed P vals tr j 0 (U tr 0) Disk.blank = (j, U tr j, d) ∧
-      ExactLB P vals d j ∧ RecAt P vals tr d j := by
-  obtain ⟨d, h1, h2, h3⟩ := runLoop_exact hi hkeep j 0 Disk.blank (Rec_blank P vals tr) (ExactLB_blank P vals)
-    (by omega)
-  rw [Nat.zero_add] at h1 h2 h3
-  exact ⟨d, h1, h3, h2⟩
-
-
-
-/-! ## keep everything: every recorded epoch stays loadable — with or without crashes -/
-
-/-- Every single mutating call of a keep-everything update preserves `RecAll`. -/
-theorem c16_keepall_step {P : Params} (hi : Inj P) (hkeep : P.keepLB = false) (vals : List (Option Int))
-    (tr : Train) (d : Disk) (k : Nat) (h : RecAll P vals tr d k) (hlt : k < vals.length)
-    (main : List FsOp) (cl : List Path)
-    (hplan : planUpdate Quirks.fixed P vals k d (tr (k + 1) (U tr k)) = .ok (main, cl)) (i : Nat) :
-    ∃ k', RecAll P vals tr (exec d ((opsOf main cl).take i)) k' := by
-  have hp : planUpdate Quirks.fixed P vals k d (U tr (k + 1)) = .ok (main, cl) := hplan
-  have a := step_main hi h.1 hlt hp cl (fun _ h => h) i
-  have b := keepall_step hi hkeep h.2 hp i
-  by_cases h9 : i ≤ 9
-  · exact ⟨k, a.1 h9, b.2.1 h9⟩
-  · exact ⟨k + 1, a.2 (by omega), b.2.2 (by omega)⟩
-
-theorem runLoop_keepall {P : Params} (hi : Inj P) (hkeep : P.keepLB = false) {vals : List (Option Int)}
-    {tr : Train} :
-    ∀ (fuel k : Nat) (d : Disk), RecAll P vals tr d k → k + fuel ≤ vals.length →
-      ∃ d', runLoop Quirks.fixed P vals tr fuel k (U tr k) d = (k + fuel, U tr (k + fuel), d') ∧
-        RecAll P vals tr d' (k + fuel) := by
-  intro fuel
-  induction fuel with
-  | zero => intro k d h _; exact ⟨d, rfl, h⟩
-  | succ f ih =>
-    intro k d h hle
-    obtain ⟨main, cl, hp⟩ := c16_never_refuses hi Quirks.fixed vals k d (tr (k + 1) (U tr k))
-    have hp' : planUpdate Quirks.fixed P vals k d (U tr (k + 1)) = .ok (main, cl) := hp
-    have h1 := c16_rec_full hi vals tr d k h.1 (by omega) main cl hp cl (fun _ h => h)
-    have hb := keepall_step hi hkeep h.2 hp' ((opsOf main cl).length + 10)
-    rw [List.take_of_length_le (by omega)] at hb
-    obtain ⟨d2, hr, h2⟩ := ih (k + 1) _ ⟨h1, hb.2.2 (by omega)⟩ (by omega)
-    have hu : updateFull Quirks.fixed P vals tr k (U tr k) d = .ok (exec d (opsOf main cl), U tr (k + 1)) := by
-      simp [updateFull, hp, U]
-    have e : k + 1 + f = k + (f + 1) := by omega
-    refine ⟨d2, ?_, ?_⟩
-    · simp only [runLoop, hu]; rw [hr, e]
-    · rw [← e]; exact h2
-
-theorem RecAll_blank (P : Params) (vals : List (Option Int)) (tr : Train) : RecAll P vals tr Disk.blank 0 :=
-  ⟨Rec_blank P vals tr, fun j h1 h0 => by omega⟩
-
-/-- **Keep everything:** after any number of killed sessions and a final one that runs to the end,
-every epoch `1..n` is loadable with exactly the state saved for it. -/
-theorem c16_keepall_loadable {P : Params} (hi : Inj P) (hkeep : P.keepLB = false) (vals : List (Option Int))
-    (tr : Train) (sched : List (Nat × Nat)) :
-    AllLoadable P tr (faulty Quirks.fixed P vals tr Disk.blank sched) vals.length := by
-  suffices h : ∀ (d : Disk) (k : Nat), RecAll P vals tr d k →
-      RecAll P vals tr (faulty Quirks.fixed P vals tr d sched) vals.length from
-    (h Disk.blank 0 (RecAll_blank P vals tr)).2
-  induction sched with
-  | nil =>
-    intro d k hk
-    have hle : k + (vals.length - k) ≤ vals.length := by have := hk.1.2.2.1; omega
-    obtain ⟨d', hr, h'⟩ := runLoop_keepall hi hkeep (vals.length - k) k d hk hle
-    have : k + (vals.length - k) = vals.length := by have := hk.1.2.2.1; omega
-    rw [this] at h' hr
-    simp only [faulty, runToEnd, startSession_of_RecAt hk.1, hr]
-    exact h'
-  | cons x rest ih =>
-    intro d k hk
-    obtain ⟨j, i⟩ := x
-    have hle : k + min j (vals.length - k) ≤ vals.length := by have := hk.1.2.2.1; omega
-    obtain ⟨d', hr, h'⟩ := runLoop_keepall hi hkeep (min j (vals.length - k)) k d hk hle
-    simp only [faulty, crashSession, startSession_of_RecAt hk.1, hr]
-    split
-    · rename_i hlt
-      obtain ⟨main, cl, hp⟩ := c16_never_refuses hi Quirks.fixed vals (k + min j (vals.length - k)) d'
-        (tr (k + min j (vals.length - k) + 1) (U tr (k + min j (vals.length - k))))
-      obtain ⟨k', hk'⟩ := c16_keepall_step hi hkeep vals tr d' _ h' hlt main cl hp i
-      simp only [updateCrashed, hp]
-      exact ih _ k' hk'
-    · exact ih _ _ h'
-
-/-- In every state the colliding update can start from, it either refuses or — killed after its
-second mutating call — leaves a history that names an epoch whose checkpoint paths still hold
-the previous epoch's state: for formats without the epoch field no recoverable disk with `k ≥ 1`
-recorded epochs survives every crash point of the next update, whatever the metrics. -/
-theorem c16_collision_window (keep : Bool) (vals : List (Option Int)) (tr : Train) (d : Disk) (k : Nat)
-    (hk1 : 1 ≤ k) (hrec : RecAt (constP keep) vals tr d k)
-    (hU : U tr (k + 1) ≠ U tr k) :
-    (∃ e, planUpdate Quirks.fixed (constP keep) vals k d (U tr (k + 1)) = .error e) ∨
-    (∃ main cl, planUpdate Quirks.fixed (constP keep) vals k d (U tr (k + 1)) = .ok (main, cl) ∧
-      ¬ Rec (constP keep) vals tr (exec d ((opsOf main cl).take 2))) := by
-  have key : ∀ cl : List Path, ¬ Rec (constP keep) vals tr
-      (exec d ((opsOf (histOps Quirks.fixed d (k + 1) ++ saveOps (constP keep) d (k + 1) (U tr (k + 1))) cl).take 2)) := by
-    intro cl hr
-    have ht : (opsOf (histOps Quirks.fixed d (k + 1) ++ saveOps (constP keep) d (k + 1) (U tr (k + 1))) cl).take 2
-        = histOps Quirks.fixed d (k + 1) := by
-      simp [opsOf, histOps_eq]
-    rw [ht, exec_histOps] at hr
-    obtain ⟨k', hk'⟩ := hr
-    obtain ⟨h1, h2, h3, h4, h5⟩ := hrec
-    obtain ⟨hr', _⟩ := recorded_after_hist (f := d.files) (f' := d.files) (c := d.csv) (k := k) h1 h2
-    have hk'' : RecAt (constP keep) vals tr
-        { d with csv := some (d.csv.getD [] ++ histLines Quirks.fixed d (k + 1)) } k' := hk'
-    have hkk : k + 1 = k' := hk''.unique hr'
-    subst hkk
-    have hl := hk''.2.2.2.1
-    have hsame : loadState (constP keep) { d with csv := some (d.csv.getD [] ++ histLines Quirks.fixed d (k + 1)) } (k + 1)
-        = loadState (constP keep) d k := by
-      have hk0 : k ≠ 0 := by omega
-      simp [loadState, constP, Params.mpath, Params.opath, hk0]
-    rw [hsame, h4] at hl
-    exact hU (Option.some.inj hl).symm
-  have hmain : ∀ main cl, planUpdate Quirks.fixed (constP keep) vals k d (U tr (k + 1)) = .ok (main, cl) →
-      main = histOps Quirks.fixed d (k + 1) ++ saveOps (constP keep) d (k + 1) (U tr (k + 1)) := by
-    intro main cl h
-    have hnk : ¬ (k + 1 = k) := by omega
-    unfold planUpdate at h
-    simp only at h
-    cases keep with
-    | true =>
-      simp only [constP, if_true, true_or, and_true, ne_eq] at h
-      split at h
-      · cases h
-      · rename_i hcb
-        have hcb : bestOf (vals.take (k + 1)) = k + 1 := Classical.not_not.mp hcb
-        rw [hcb, if_neg hnk] at h
-        injection h with h
-        injection h with h1 h2
-        exact h1.symm
-    | false =>
-      have hany : (List.range' 1 k).any (fun j => decide ((constP false).km j = (constP false).km (k + 1)) ||
-          decide ((constP false).ko j = (constP false).ko (k + 1))) = true := by
-        rw [List.any_eq_true]
-        exact ⟨1, by rw [List.mem_range'_1]; omega, by simp [constP]⟩
-      have hk : (constP false).keepLB = false := rfl
-      simp only [hk, Bool.false_eq_true, if_false, Quirks.fixed, hany, if_true] at h
-      injection h with h
-      injection h with h1 h2
-      exact h1.symm
-  cases hp : planUpdate Quirks.fixed (constP keep) vals k d (U tr (k + 1)) with
-  | error e => exact Or.inl ⟨e, rfl⟩
-  | ok r =>
-    obtain ⟨main, cl⟩ := r
-    refine Or.inr ⟨main, cl, rfl, ?_⟩
-    rw [hmain main cl hp]
-    exact key cl
+theorem step_main {P : Params} {vals : List (Option Int)} {tr : Train} {d : Disk} {k : Nat}
+    (hrec : RecAt P vals tr d k) (hk : k < vals.length) (hs : SafeAt P vals k) (hsep : Sep P vals k)
+    (cl' : List Path) (hcl : ∀ p ∈ cl', p ∈ cleanSet P vals k d) (i : Nat) :
+    (i < 8 + (histOps Quirks.fixed d (k + 1)).length →
+      RecAt P vals tr (exec d ((opsOf (saveOps P d (k + 1) (U tr (k + 1)) ++
+        histOps Quirks.fixed d (k + 1)) cl').take i)) k) ∧
+    (8 + (histOps Quirks.fixed d (k + 1)).length ≤ i →
+      RecAt P vals tr (exec d ((opsOf (saveOps P d (k + 1) (U tr (k + 1)) ++
+        histOps Quirks.fixed d (k + 1)) cl').take i)) (k + 1)) := by
+  have hlen : (saveOps P d (k + 1) (U tr (k + 1)) ++ histOps Quirks.fixed d (k + 1)).length =
+      8 + (histOps Quirks.fixed d (k + 1)).length := by simp [saveOps]; omega
+  constructor
+  · intro hi
+    rw [opsOf, List.take_append_of_le_length (by omega)]
+    exact before_row hrec hk hs _ i hi
+  · intro hi
+    rw [opsOf, List.take_append, List.take_of_length_le (by omega), exec_append]
+    exact after_row hrec hk hs hsep cl' hcl _
 
 
 end PdtVerif.Checkpoint
